@@ -77,6 +77,12 @@ class SimSession(rp.Session):
         return self._rep
 
     def close(self, **kw):
+        # closing a real session takes time (bridges, components): worlds
+        # may ask for a seeded duration
+        sim = K.cur()
+        d = sim.data.get('session_close_time') if sim else None
+        if d and sim.in_sim_thread():
+            sim.sleep(d)
         self._closed = True
 
 
